@@ -106,7 +106,7 @@ def _run_instance(job):
                                     observations=[(l, api.plain(api.model_value(m, v))) for l, v in eng.observations])
 
     from . import summaries
-    summaries.STATE["enabled"] = bool(getattr(mod, "SUMMARIES", True))
+    summaries.STATE["enabled"] = bool(inst.get("summaries", getattr(mod, "SUMMARIES", True)))
     used0, lq0 = summaries.STATE["used"], summaries.STATE["lemma_queries"]
     signal.signal(signal.SIGALRM, _alarm)
     signal.alarm(int(budget_s * 1.5) + 5)
